@@ -1704,6 +1704,8 @@ class Prop(Check):
         "Rrel.C11_root_spec",
         "Rrel.C11_dots_spec",
         "Rrel.C11_parent_spec",
+        "Rrel.C11_starts_spec",
+        "Rrel.C11_zeros_spec",
     ]
     DRIVER = "Drivers/Rrel.lean"
     QUICK_CASES = 500
@@ -1732,7 +1734,9 @@ class Prop(Check):
                 "parameter of the match rule of the reference at hand, else '.') and histories of calls (Rrel.Provider.call / run, "
                 "driver op session: every provider object is threaded through its calls in textual order); "
                 "tie X: outcome, resolved object and proxy path on the parsed expression tree (node "
-                "identities from the real parser) vs rrel.find, grammar-attached RREL and registered RREL strings; the heap "
+                "identities from the real parser) vs rrel.find, grammar-attached RREL and registered RREL strings; the object tree "
+                "(classes, names, flags) is sent too and the driver checks RrelSyntax.toCore(object tree) = dumped core, node "
+                "identities included, and importURI / use_proxy against the flags; the heap "
                 "description the model gets is cross-checked against the loaded objects; not modelled: prevent_doubles "
                 "(unobservable, see Rrel.lean), navigation into primitive-valued attributes, RRELImportURI model loading, "
                 "local_models of a multi-file repository (only builtin models feed the '+m:' list), textx_isinstance itself "
@@ -1741,7 +1745,10 @@ class Prop(Check):
                 "which textX resolves the references of a model and its retry of Postponed ones (C09)")
     ASSUMPTIONS = [
         "navigated attributes hold objects, lists of objects or None (not primitives); parent chains are acyclic",
-        "node identities of one expression tree are pairwise distinct (Python object identity)",
+        "node identities: proved pairwise distinct for the core of every object tree (RrelSyntax.toCore, C11_*_tree, C11_parsed_core); "
+        "that the real objects of a parsed tree carry exactly these identities is checked per case (driver field core_ok)",
+        "C11_anc_spec / C11_anc_order / C11_root_spec / C11_dots_spec / C11_parent_spec: parent chains are acyclic and Heap.depth is at "
+        "least the number of objects (the driver's heaps: depth = number of objects)",
         "C11_terminates / C11_resolves: the object graph is finite (FinHeap); C11_resolves: no attribute is unresolved",
     ]
     FUEL = 1000000
